@@ -16,6 +16,9 @@ type Node struct {
 type FlowSpec struct {
 	Nodes []Node `json:"nodes"`
 	Type  string `json:"type,omitempty"` // messaging (default) or voice
+	// Localized adds a "spa" localization of every router category: translations longer than a
+	// category name may be in the base language, one of them with a line break
+	Localized bool `json:"localized,omitempty"`
 }
 
 func (f FlowSpec) String() string {
@@ -107,7 +110,7 @@ func Render(f int, spec FlowSpec, other int) J {
 	if typ == "" {
 		typ = "messaging"
 	}
-	return J{
+	def := J{
 		"uuid":         FlowUUID(f),
 		"name":         fmt.Sprintf("Flow %d", f),
 		"spec_version": "13.5.0",
@@ -115,6 +118,18 @@ func Render(f int, spec FlowSpec, other int) J {
 		"type":         typ,
 		"nodes":        nodes,
 	}
+	if spec.Localized {
+		spa := J{}
+		for i, n := range spec.Nodes {
+			switch n.Kind {
+			case "W", "WT", "S":
+				spa[catUUID(f, i, 0)] = J{"name": []any{"Sí, me gustaría mucho recibir recordatorios"}}
+				spa[catUUID(f, i, 1)] = J{"name": []any{"Otra\ncosa"}}
+			}
+		}
+		def["localization"] = J{"spa": spa}
+	}
+	return def
 }
 
 func switchRouter(f, i int, wait J, resultName string, timeoutCat bool) J {
